@@ -414,6 +414,14 @@ func (c *Compiler) Compile(node parser.Node) error {
 		}
 		c.emit(node, parser.OpSliceIndex)
 	case *parser.FuncLit:
+		// break/continue inside the literal must not see the loops that
+		// enclose it: their jumps would be patched into the outer function
+		outerLoops, outerLoopIndex := c.loops, c.loopIndex
+		c.loops, c.loopIndex = nil, -1
+		defer func() {
+			c.loops, c.loopIndex = outerLoops, outerLoopIndex
+		}()
+
 		c.enterScope()
 
 		for _, p := range node.Type.Params.List {
